@@ -425,6 +425,53 @@ print("RESULT", out)
     return dict(reproduced=bool(violated), violated=violated, observed=dict(compound=got, alternatives_alone=alone))
 
 
+def setstate_case(case):
+    """C18: CTrait.__setstate__ with a state tuple that is not one written by __getstate__.  (a) parsing fails after object
+    fields were written: the trait then holds references it never took -- measured as an over-release once the trait is
+    destroyed; (b) a handler index outside its table.  Child processes."""
+    import subprocess
+    progs = {
+        "borrowed-fields-after-a-failed-parse": r"""
+import sys, gc
+from traits.ctraits import cTrait
+class Marker: pass
+m = Marker()
+keep = [m] * 8                      # enough real references that the over-release cannot free the object
+r0 = sys.getrefcount(m)
+t = cTrait(0)
+try:
+    t.__setstate__((0, 0, 0, m, 0, m, "not an int", None, 0, None, None, 0, None, None, {}))
+    print("RESULT accepted")
+except TypeError:
+    del t
+    gc.collect()
+    print("RESULT refcount-delta", sys.getrefcount(m) - r0)
+""",
+        "index-outside-the-handler-table": r"""
+from traits.ctraits import cTrait
+t = cTrait(0)
+try:
+    t.__setstate__((0, 0, 0, None, 100000000, None, 0, None, 0, None, None, 0, None, None, {}))
+    print("RESULT accepted")
+except Exception as e:
+    print("RESULT raised", type(e).__name__)
+""",
+    }
+    violated, observed = [], {}
+    for label, prog in progs.items():
+        p = subprocess.run([sys.executable, "-c", prog], capture_output=True, text=True, timeout=60)
+        out = [l for l in p.stdout.splitlines() if l.startswith("RESULT")]
+        observed[label] = (p.returncode, out[-1] if out else "")
+        if p.returncode < 0:
+            violated.append("%s: interpreter killed by signal %d" % (label, -p.returncode))
+        elif out and out[-1].startswith("RESULT refcount-delta") and int(out[-1].split()[-1]) != 0:
+            violated.append("%s: after the failed __setstate__ and the destruction of the trait the object's reference count is off by %s"
+                            % (label, out[-1].split()[-1]))
+        elif out and out[-1] == "RESULT accepted" and label.startswith("index"):
+            violated.append("%s: a state with validate index 100000000 was accepted (handler read from outside validate_handlers)" % label)
+    return dict(reproduced=bool(violated), violated=violated, observed=observed)
+
+
 def main():
     case = json.loads(sys.stdin.read())
     out = {"float_range": float_range_case, "ctrait_state": ctrait_state_case,
@@ -432,7 +479,8 @@ def main():
            "compound_order": compound_order_case, "compound_slow_first": compound_slow_first_case, "dynamic_range": dynamic_range_case,
            "string_state": string_state_case, "getset_delete": getset_delete_case,
            "set_validate_gate": set_validate_gate_case,
-           "compound_pending_exception": compound_pending_exception_case}[case["family"]](case)
+           "compound_pending_exception": compound_pending_exception_case,
+           "setstate": setstate_case}[case["family"]](case)
     print(json.dumps(out, default=repr))
 
 
